@@ -644,7 +644,7 @@ Lemma filter_mem_exact : forall sch q ev, q_class_none sch q -> q_ok sch q ev ->
 Proof.
   intros sch q ev QC [RC BU]. unfold filter_mem, sat_query, where_conds, q_class_none, ctx_ok in *.
   destruct (q_where q) as [e|].
-  - destruct (expr_mem_exact sch e ev QC (Coq.Init.Logic.conj RC BU)) as [c [B V]].
+  - destruct (expr_mem_exact sch e ev QC (conj RC BU)) as [c [B V]].
     rewrite B. simpl. rewrite V. destruct (sat sch e (ev_row ev)).
     + now rewrite andb_true_r.
     + now rewrite andb_false_r.
@@ -658,8 +658,8 @@ Proof.
   destruct (q_where q) as [e|].
   - assert (HO : hollow_ok sch (hollow_in sch zrows) (ev_row ev)).
     { intros f H. unfold hollow_in in H. rewrite forallb_forall in H. now apply H. }
-    destruct (expr_seg_exact sch _ e ev QC (Coq.Init.Logic.conj RC BU) HO) as [c [B [_ V]]].
-    rewrite B. cbn [conj]. rewrite V. destruct (sat sch e (ev_row ev)).
+    destruct (expr_seg_exact sch _ e ev QC (conj RC BU) HO) as [c [B [_ V]]].
+    rewrite B. cbn [all_conds]. rewrite V. destruct (sat sch e (ev_row ev)).
     + now rewrite andb_true_r.
     + now rewrite andb_false_r.
   - simpl. now rewrite andb_true_r.
@@ -916,4 +916,140 @@ Proof.
     congruence. }
   rewrite (exact_outside_known sch ans1 L1 q), (exact_outside_known sch ans2 L2 q); auto.
   now apply filter_perm.
+Qed.
+
+(** * Part 5 — closed witnesses: exactness fails in every known class *)
+
+Definition bs (l : list N) : bytes := l.
+Definition n_a := bs [97%N].   Definition n_u := bs [117%N].  Definition n_f := bs [102%N].
+Definition n_s := bs [115%N].  Definition n_b := bs [98%N].   Definition n_e := bs [101%N].
+Definition n_d := bs [100%N].  Definition n_os := bs [111; 115]%N.  Definition n_oi := bs [111; 105]%N.
+Definition s_lo := bs [108; 111]%N.  Definition s_hi := bs [104; 105]%N.
+Definition s_x := bs [120%N].  Definition s_y := bs [121%N].  Definition s_p := bs [112%N].
+Definition s_7 := bs [55%N].   Definition s_007 := bs [48; 48; 55]%N.  Definition s_zzz := bs [122; 122; 122]%N.
+Definition s_1_5 := bs [49; 46; 53]%N.  Definition s_2_5 := bs [50; 46; 53]%N.
+Definition f_1_5 : N := 4609434218613702656%N.   (* 1.5 *)
+Definition f_2_5 : N := 4612811918334230528%N.   (* 2.5 *)
+
+Definition w_sch : schema :=
+  [ mk_fdecl n_a KInt false; mk_fdecl n_u KU64 false; mk_fdecl n_f KFloat false; mk_fdecl n_s KStr false;
+    mk_fdecl n_b KBool false; mk_fdecl n_e (KEnum [s_lo; s_hi]) false; mk_fdecl n_d KTime false;
+    mk_fdecl n_os KStr true; mk_fdecl n_oi KInt true ].
+
+Definition w_c1 : bytes := [99; 49]%N.
+Definition w_r1 : event := mk_event w_c1
+  [VInt 1; VU64 1; VFloat f_1_5 s_1_5; VStr s_x; VBool true; VEnum s_lo; VTime 0; VNull; VNull].
+Definition w_r2 : event := mk_event w_c1
+  [VInt 2; VU64 2; VFloat f_2_5 s_2_5; VStr s_7; VBool false; VEnum s_hi; VTime 0; VStr s_p; VInt 5].
+(** a u64 cell above i64::MAX *)
+Definition w_r3 : event := mk_event w_c1
+  [VInt 3; VU64 (2 ^ 63); VFloat f_2_5 s_2_5; VStr s_y; VBool false; VEnum s_hi; VTime 0; VStr s_p; VInt 5].
+
+(** both rows in memory / both rows in one zone of one flushed segment / one row per segment *)
+Definition w_mem : layout := mk_layout [w_r1; w_r2] [].
+Definition w_seg : layout := mk_layout [] [[mk_zone 0%N [w_r1; w_r2]]].
+Definition w_two : layout := mk_layout [] [[mk_zone 0%N [w_r1]]; [mk_zone 0%N [w_r2]]].
+Definition w_big : layout := mk_layout [w_r3] [].
+
+(** the ideal structures: exactly the zones holding a satisfying row *)
+Definition w_ideal (L : layout) : nat -> leaf -> option (list zid) :=
+  fun i l => ideal_ans w_sch (nth i (l_segs L) []) l.
+
+Definition conforming (sch : schema) (L : layout) : bool :=
+  forallb (fun ev => row_conforms sch (ev_row ev)) (events L).
+Definition wt_query (sch : schema) (q : query) : bool :=
+  match q_where q with Some e => well_typed sch e | None => true end.
+Definition deviates (sch : schema) (ans : nat -> leaf -> option (list zid)) (L : layout) (q : query) : Prop :=
+  run_query sch ans L q <> filter (sat_query sch q) (events L).
+
+(** a well-typed query over conforming rows, in the given class, on which QUERY is not exact *)
+Definition witness (c : option kclass) (ans : nat -> leaf -> option (list zid)) (L : layout) (q : query) : Prop :=
+  conforming w_sch L = true /\ wt_query w_sch q = true /\ known_class w_sch (events L) q = c /\
+  deviates w_sch ans L q.
+
+Definition qw (e : expr) : query := mk_query None (Some e).
+
+Ltac witness_tac :=
+  split; [vm_compute; reflexivity|split; [vm_compute; reflexivity|split; [vm_compute; reflexivity|
+    let H := fresh in intro H; vm_compute in H; discriminate H]]].
+
+Lemma w_not : witness (Some NotComplement) (w_ideal w_seg) w_seg (qw (ENot (ECmp n_a CEq (LInt 1)))).
+Proof. witness_tac. Qed.
+Lemma w_not_sound : leaves_sound w_sch (w_ideal w_seg) w_seg (qw (ENot (ECmp n_a CEq (LInt 1)))) = true.
+Proof. vm_compute. reflexivity. Qed.
+Lemma w_dropped : witness (Some LiteralDropped) (w_ideal w_mem) w_mem (qw (ECmp n_a CGt (LFloat f_1_5 s_1_5))).
+Proof. witness_tac. Qed.
+Lemma w_dropped_seg : witness (Some LiteralDropped) (w_ideal w_seg) w_seg (qw (ECmp n_a CGt (LFloat f_1_5 s_1_5))).
+Proof. witness_tac. Qed.
+Lemma w_float : witness (Some FloatColumn) (w_ideal w_mem) w_mem (qw (ECmp n_f CGt (LInt 1))).
+Proof. witness_tac. Qed.
+Lemma w_float_seg : witness (Some FloatColumn) (w_ideal w_seg) w_seg (qw (ECmp n_f CGt (LInt 1))).
+Proof. witness_tac. Qed.
+Lemma w_bool : witness (Some BoolColumn) (w_ideal w_seg) w_seg (qw (ECmp n_b CEq (LStr b_true))).
+Proof. witness_tac. Qed.
+Lemma w_neq : witness (Some NeqPruned) (w_ideal w_seg) w_seg (qw (ECmp n_a CNe (LInt 1))).
+Proof. witness_tac. Qed.
+Lemma w_enum : witness (Some EnumUnknownVariant) (w_ideal w_seg) w_seg (qw (ECmp n_e CNe (LStr s_zzz))).
+Proof. witness_tac. Qed.
+Lemma w_u64neg : witness (Some U64NegativeThreshold) (w_ideal w_seg) w_seg (qw (ECmp n_u CGt (LInt (-1)))).
+Proof. witness_tac. Qed.
+Lemma w_u64big : witness (Some U64AboveI64Max) (w_ideal w_big) w_big (qw (ECmp n_u CGt (LInt 0))).
+Proof. witness_tac. Qed.
+Lemma w_numstr : witness (Some NumericLookingString) (w_ideal w_mem) w_mem (qw (ECmp n_s CEq (LStr s_007))).
+Proof. witness_tac. Qed.
+Lemma w_strord : witness (Some StringOrdering) (w_ideal w_mem) w_mem (qw (ECmp n_s CGt (LStr s_p))).
+Proof. witness_tac. Qed.
+Lemma w_nullsp : witness (Some NullSpelling) (w_ideal w_mem) w_mem (qw (ECmp n_os CEq (LStr b_null))).
+Proof. witness_tac. Qed.
+(** the temporal pruner clamps the probe to 0 and keeps zones whose maximum is above it: a zone
+    holding only the instant 0 is not returned for [d > -5] *)
+Lemma w_tneg : witness (Some TemporalNegativeLiteral) (fun _ _ => Some []) w_seg (qw (ECmp n_d CGt (LInt (-5)))).
+Proof. witness_tac. Qed.
+
+(** outside the static classes: the candidates mix uid-carrying zones (SuRF fallback of the segment
+    whose field holds a null) and bare zones (the other segment's SuRF answer), and a leaf answer
+    that is not a superset *)
+Definition w_mixed_ans : nat -> leaf -> option (list zid) :=
+  fun i _ => match i with O => None | _ => Some [0%N] end.
+Definition w_mixed_q : query := qw (ECmp n_oi CGe (LInt 0)).
+Lemma w_mixed :
+  witness None w_mixed_ans w_two w_mixed_q /\
+  mixed_provenance w_sch w_mixed_ans w_two w_mixed_q = true /\
+  leaves_sound w_sch w_mixed_ans w_two w_mixed_q = true.
+Proof. split; [witness_tac|split; vm_compute; reflexivity]. Qed.
+Lemma w_unsound :
+  witness None (fun _ _ => Some []) w_seg (qw (ECmp n_a CEq (LInt 1))) /\
+  leaves_sound w_sch (fun _ _ => Some []) w_seg (qw (ECmp n_a CEq (LInt 1))) = false.
+Proof. split; [witness_tac|vm_compute; reflexivity]. Qed.
+
+(** [C02_exact]: QUERY does not return exactly the matching events — even over ideal pruning
+    structures, for a well-typed predicate over conforming rows. *)
+Theorem exact_refuted : exists sch ans L q,
+  conforming sch L = true /\ wt_query sch q = true /\ leaves_sound sch ans L q = true /\
+  ~ Permutation (run_query sch ans L q) (filter (sat_query sch q) (events L)).
+Proof.
+  exists w_sch, (w_ideal w_seg), w_seg, (qw (ENot (ECmp n_a CEq (LInt 1)))).
+  split; [vm_compute; reflexivity|split; [vm_compute; reflexivity|split; [exact w_not_sound|]]].
+  intro P. apply Permutation_length in P. vm_compute in P. discriminate P.
+Qed.
+
+(** ** The hypotheses of [exact_outside_known] are satisfiable on a layout that mixes matching and
+    non-matching rows in one zone, with a compound predicate *)
+Definition ex_q : query :=
+  mk_query (Some w_c1)
+    (Some (EOr (EAnd (ECmp n_a CGe (LInt 2)) (EIn n_e [LStr s_hi; LStr s_zzz]))
+               (EAnd (ECmp n_s CEq (LStr s_x)) (ECmp n_u CLt (LInt (-3)))))).
+Definition ex_L : layout := mk_layout [w_r2] [[mk_zone 0%N [w_r1; w_r2]]; [mk_zone 0%N [w_r1]; mk_zone 1%N [w_r2; w_r2]]].
+Lemma outside_known_example :
+  (forall ev, In ev (events ex_L) -> row_conforms w_sch (ev_row ev) = true) /\
+  known_class w_sch (events ex_L) ex_q = None /\
+  mixed_provenance w_sch (w_ideal ex_L) ex_L ex_q = false /\
+  leaves_sound w_sch (w_ideal ex_L) ex_L ex_q = true /\
+  wt_query w_sch ex_q = true /\
+  length (run_query w_sch (w_ideal ex_L) ex_L ex_q) = 4 /\ length (events ex_L) = 6.
+Proof.
+  split.
+  - assert (H : conforming w_sch ex_L = true) by (vm_compute; reflexivity).
+    unfold conforming in H. rewrite forallb_forall in H. exact H.
+  - repeat split; vm_compute; reflexivity.
 Qed.
